@@ -1,4 +1,5 @@
 """C20 — achcli masking never reveals protected account data or names."""
+import json
 import os
 
 import common as C
@@ -9,7 +10,7 @@ def build(ctx):
     ctx.log("translate", out)
     if not ok:
         ctx.diag.append("translator failed: " + out[-300:])
-    C.prove(ctx, ["Props/C20.v"], ["Oblig/C20Obl.v"])
+    C.prove(ctx, ["Props/C20.v", "Props/C20Enr.v"], ["Oblig/C20Obl.v", "Oblig/C20EnrObl.v"])
     ok, out = C.build_harness()
     ctx.log("go build", out)
     if not ok:
@@ -19,7 +20,32 @@ def build(ctx):
     ctx.log("ocaml", out[-3000:])
     if not ok:
         ctx.diag.append("extracted model does not build: " + out[-600:])
+    ok, out = C.build_ocaml("c20enr")
+    ctx.log("ocaml c20enr", out[-3000:])
+    if not ok:
+        ctx.diag.append("extracted payment-information model does not build: " + out[-600:])
     return True
+
+
+def corr_enr(ctx):
+    """ENR / DNE payment information: extracted parse -> mask -> String() pipeline against the
+    PaymentRelatedInformation cell of the real describe.File output (and the public functions)."""
+    d = os.path.join(ctx.rundir, "corr-enr")
+    os.makedirs(d, exist_ok=True)
+    rc, out = C.sh([os.path.join(C.BIN, "c20enr"), "corr", "-out", d, "-random", str(ctx.scale(1500, 40000))], timeout=3000)
+    ctx.log("corr c20enr", out[-1000:])
+    drv = os.path.join(C.BUILD, "ocaml", "c20enr", "driver")
+    if rc != 0 or not os.path.exists(drv):
+        ctx.diag.append("payment-information correspondence could not run: " + out[-300:])
+        return
+    rc2, out2 = C.sh("%s %s > %s" % (drv, os.path.join(d, "cases.txt"), os.path.join(d, "model.txt")), timeout=3000)
+    if rc2 != 0:
+        ctx.diag.append("extracted payment-information model crashed: " + out2[-300:])
+    ctx.compare("ENR/DNE payment information cell", os.path.join(d, "model.txt"), os.path.join(d, "impl.txt"), os.path.join(d, "cases.txt"))
+    try:
+        ctx.cov["payment_information_cases"] = json.loads(out.strip().splitlines()[-1])
+    except (ValueError, IndexError):
+        pass
 
 
 def oracle(ctx, n, sub="oracle"):
@@ -36,9 +62,25 @@ def oracle(ctx, n, sub="oracle"):
     return summ
 
 
+def oracle_enr(ctx, n, sub="oracle-enr"):
+    """ENR (consumer and business branch) / DNE payment strings: substring oracle on the real cell."""
+    d = os.path.join(ctx.rundir, sub)
+    os.makedirs(d, exist_ok=True)
+    rc, out = C.sh([os.path.join(C.BIN, "c20enr"), "oracle", "-out", d, "-n", str(n), "-corpus", os.path.join(C.VERIF, "corpus", "C20")], timeout=3000)
+    ctx.log("oracle c20enr", out[-2000:])
+    if rc != 0:
+        ctx.diag.append("payment-information oracle crashed rc=%d: %s" % (rc, out[-300:]))
+    before = len(ctx.fails)
+    summ = ctx.read_jsonl(os.path.join(d, "oracle.jsonl"))
+    for f in ctx.fails[before:]:
+        f["input"] = f.get("case")
+    return summ
+
+
 def search(ctx, factor):
     before = len(ctx.fails)
     oracle(ctx, ctx.scale(3000, 60000) * factor, "search")
+    oracle_enr(ctx, ctx.scale(1500, 30000) * factor, "search-enr")
     found = ctx.fails[before:]
     del ctx.fails[before:]
     return found
@@ -47,8 +89,10 @@ def search(ctx, factor):
 def run(ctx):
     ctx.search = search
     ctx.trusted += ["describe-table analysis of the translator (syntactic data flow from protected accessors to fmt.Fprintf arguments)",
-                    "verif build-tag hook cmd/achcli/describe/verif_export.go (exports maskNumber/maskName unchanged)"]
-    ctx.assumptions += ["text/tabwriter and fmt copy cell bytes unchanged (not modelled)",
+                    "verif build-tag hook cmd/achcli/describe/verif_export.go (exports maskNumber/maskName unchanged)",
+                    "translator/payshape.go: syntactic transcription of the bodies of ENR/DNE PaymentInformation.String and Parse...PaymentInformation into the pexpr/pstmt syntax; the interpreter of Model/PayShapeTable.v gives the library calls (fmt.Sprintf verbs, strings.Fields/TrimSpace/Split/Join/EqualFold, strconv.Atoi, time.Parse/Format 010206, byte slices) their model, checked against the real library by the payment-information correspondence"]
+    ctx.assumptions += ["text/tabwriter and fmt copy cell bytes unchanged (not modelled; text/tabwriter interprets \\t \\v \\f \\n and the escape byte 0xff inside a cell)",
+                        "ENR/DNE: payment information that does not parse is printed as the raw field (C20_enr_malformed_raw; property scope is well-formed payment information)",
                         "a value with no information-carrying byte in the first two columns and at most four such bytes is its own mask (known finding / side condition, see DESIGN.md C20)"]
     if not build(ctx):
         return
@@ -69,8 +113,10 @@ def run(ctx):
         ctx.cov["exhaustive_alphabet_len"] = ctx.scale(6, 7)
     else:
         ctx.diag.append("correspondence could not run: " + out[-300:])
+    corr_enr(ctx)
     summ = oracle(ctx, ctx.scale(3000, 60000))
     ctx.add_summary(summ, "describe.File oracle")
+    ctx.add_summary(oracle_enr(ctx, ctx.scale(1500, 30000)), "ENR/DNE payment information oracle")
     if ctx.tier == "thorough":
         ctx.cov["forbidden_vernacular"] = C.forbidden_vernacular()
 
@@ -80,6 +126,11 @@ def replay(path):
     if not ok:
         print(out[-2000:])
         return 1
-    rc, out = C.sh([os.path.join(C.BIN, "c20"), "replay", path], timeout=600)
+    try:
+        cls = json.load(open(path)).get("input", {}).get("class", "")
+    except (OSError, ValueError, AttributeError):
+        cls = ""
+    binary = "c20enr" if str(cls).startswith("pri-") else "c20"
+    rc, out = C.sh([os.path.join(C.BIN, binary), "replay", path], timeout=600)
     print(out)
     return 1 if rc != 0 else 0
